@@ -1,4 +1,5 @@
 """C11 — a failing user function leaves the stepper consistent and resumable."""
+import builtins
 import copy
 
 import c01
@@ -26,6 +27,14 @@ TRUSTED = ["the order in which the interpreter executed the statements of the fa
 ASSUMPTIONS = list(c01.ASSUMPTIONS)
 
 
+class InjectedKey(KeyError):
+    """a failed look-up inside the user's function (a KeyError subclass)"""
+
+
+EXC_CLASSES = ["Injected", "InjectedKey", "KeyError", "IndexError", "ValueError", "RuntimeError", "ZeroDivisionError",
+               "AttributeError", "TypeError", "NameError", "LookupError", "ArithmeticError", "AssertionError", "OSError"]
+
+
 class Injected(Exception):
     pass
 
@@ -33,17 +42,20 @@ class Injected(Exception):
 class Faulty:
     """the deterministic user functions of sem_common with a global call counter; the k-th call raises"""
 
-    def __init__(self, k):
+    def __init__(self, k, exc_class="Injected"):
         self.k = k
         self.n = 0
         self.exc = None
         self.on_fail = None
+        self.exc_class = exc_class
 
     def wrap(self, fn):
         def f(*a, **kw):
             self.n += 1
             if self.k is not None and self.n == self.k:
-                self.exc = Injected(f"call {self.n}")
+                cls = {"Injected": Injected, "InjectedKey": InjectedKey}.get(self.exc_class) or getattr(builtins, self.exc_class)
+                self.exc = cls(f"call {self.n}")
+                self.exc._dagrt_verif_injected = True
                 if self.on_fail:
                     self.on_fail()
                 raise self.exc
@@ -115,11 +127,11 @@ def consume(gen, max_iters):
                     break
     except (sc.ErrA, sc.ErrB) as ex:
         evs.append(["raised", type(ex).__name__])
-    except Injected as ex:
-        return evs, ex
     except sc.Inexact:
         raise
     except Exception as ex:
+        if getattr(ex, "_dagrt_verif_injected", False):
+            return evs, ex
         if type(ex).__name__ == "StepError":
             evs.append(["raised", ex.condition])
         else:
@@ -203,6 +215,17 @@ def g_case(rng):
     case["tag"] = "fault"
     case["kfrac"] = rng.random()
     case["max_steps"] = rng.randint(2, 5)
+    case["exc_class"] = rng.choice(EXC_CLASSES)
+    if rng.random() < 0.4:
+        # a user-function call in a LOOP BOUND (value-preserving: g(x, y=0) = x), so that the fault plan can hit
+        # the first evaluation of a bound, before the loop counter exists
+        loops = [op[1][4] for ph in case["phases"] for op in ph["prog"]
+                 if op[0] == "stmt" and op[1][0] == "assign" and op[1][4]]
+        for ls in loops:
+            if rng.random() < 0.7:
+                l = rng.choice(ls)
+                l[2] = ["call", "<func>g", [l[2]], [["y", ["c", 0]]]]
+                case["tag"] = "fault-call-in-bound"
     return case
 
 
@@ -238,13 +261,14 @@ def run_case(case):
     code = c01.build_code(case)
     res = {}
     for kind in ("interp", "gen"):
-        fz = Faulty(case["k"])
+        fz = Faulty(case["k"], case.get("exc_class", "Injected"))
         try:
             m, names, evs, exc, info = run_to_fault(case, kind, code, fz)
         except c01.BackendError as ex:
-            res[kind] = {"error": str(ex)}
+            res[kind] = {"error": str(ex), "injected": fz.exc is not None}
             continue
         r = {"events": evs, "reached": exc is not None, "same_object": exc is fz.exc and exc is not None,
+             "injected": fz.exc is not None,
              "calls": fz.n, "pre": info["pre"], "phase": info.get("phase")}
         if exc is not None:
             obs = c01.observe(case)
@@ -267,6 +291,11 @@ def impl(case):
         if "builder failed" in str(ex):
             return {"dropped": "builder failed"}
         raise
+    # the user function DID raise, but what reached the caller of run() is nothing / another exception
+    lost = {k: (res[k].get("error") or "no exception reached the caller") for k in res
+            if res[k].get("injected") and ("error" in res[k] or not res[k].get("reached"))}
+    if lost:
+        return {"lost": lost}
     if any("error" in res[k] for k in res):
         return {"dropped": "back end raises " + str([res[k].get("error") for k in res])[:60]}
     ri = res["interp"]
@@ -300,6 +329,8 @@ def model_input(case):
 
 
 def normalise_pair(case, a, b):
+    if isinstance(a, dict) and "lost" in a:
+        return None, None          # decided by the oracle
     if isinstance(a, dict) and a.get("post") is None and "note" in a:
         ctx.count("model:not-asked(loop)")
         return None, None
@@ -343,11 +374,16 @@ def oracle(case, out):
         return None
     if "harness_error" in out:
         return {"what": "the steppers could not be run: " + out["harness_error"] + ": " + out.get("msg", "")}
+    if "lost" in out:
+        labels = {"interp": "interpreter", "gen": "generated Python class"}
+        k, v = sorted(out["lost"].items())[0]
+        return {"what": f"{labels[k]}: the {case.get('exc_class', 'Injected')} raised by the user function (call {case['k']}) did not "
+                        f"reach the caller of run(): {v}", "sig": k + "-exception-lost"}
     res = run_case(case)
     code = c01.build_code(case)
     for kind, label in (("interp", "interpreter"), ("gen", "generated Python class")):
         r = res[kind]
-        if not r["reached"]:
+        if "error" in r or not r["reached"]:
             continue
         if not r["same_object"]:
             return {"what": f"{label}: the exception raised by the user function is not the object that reaches the caller",
